@@ -58,6 +58,9 @@ func ValueDomain(n *Node) []string {
 	if n.Kind == KContainer {
 		return []string{""}
 	}
+	if len(n.Domain) > 0 && n.Kind == KLeaf {
+		return n.Domain
+	}
 	var scalars []string
 	t := n.Type
 	if t == "leafref" {
